@@ -1081,10 +1081,36 @@ def build_program(rng, mode, nops, allow_cop=True, flagops=False):
     return p
 
 
+def flagged_leaf(L, nm, dims, how, rng, mode):
+    L.append("new %s %s %s" % (nm, dims_s(dims), vals_s(gen_vals(rng, prod(dims), mode, "pos"), mode)))
+    L += {"plain": [], "tracked": ["tracked %s" % nm], "start": ["start %s" % nm],
+          "tracked-stop": ["tracked %s" % nm, "stop %s" % nm], "untracked": ["untracked %s" % nm],
+          "untracked-start": ["tracked %s" % nm, "untracked %s" % nm, "start %s" % nm]}[how]
+
+
 def fam_transparent(rng, n, tier, mode="exact"):
     """C12: a program and an edited twin (operands replaced by clones, handles dropped after their last
     use, variables re-bound, the pass started from a clone); all observable results must coincide"""
     cases = []
+    # systematic part: a clone of a handle in every flag state behaves like the handle, in every operation
+    hows = ["plain", "tracked", "start", "tracked-stop", "untracked", "untracked-start"]
+    ops = [("mul", "mul r a b"), ("add", "add r b a"), ("neg", "neg r a"), ("scale", "scale r a %s" % sc(2, mode)),
+           ("reshape", "reshape r a 4"), ("sum", "sum r a 1"), ("matmul", "matmul r a N b T -"), ("matmulc", "matmul r b N b T a1"),
+           ("powf", "powf r a %s" % sc(2, mode)), ("relu", "relu r a")]
+    for how in hows:
+        for hb in ("plain", "tracked"):
+            for (opn, line) in ops:
+                base = []
+                flagged_leaf(base, "a", [2, 2], how, rng, mode)
+                flagged_leaf(base, "b", [2, 2], hb, rng, mode)
+                flagged_leaf(base, "a1", [2], how, rng, mode)
+                L = list(base) + [line, "mul s r r", "backward s -"]
+                L += rename_lines(base, {"a", "b", "a1"}, "z") + ["clone zqa za", "clone zqa1 za1"]
+                toks = [("zqa" if t == "a" else "zqa1" if t == "a1" else "z" + t if t in ("b", "r") else t) for t in line.split(" ")]
+                L += [" ".join(toks), "mul zs zr zr", "backward zs -"]
+                for v in ("a", "b", "a1", "r", "s"):
+                    L += ["same %s z%s" % (v, v), "samegrad %s z%s" % (v, v)]
+                cases.append(Case(L, ("trsys", how, hb, opn), ["systematic", "clone", how], mode, nontrivial=(how != "plain")))
     for i in range(n):
         p = build_program(rng, mode, rng.randint(2, 10 if tier == "quick" else 16), flagops=(rng.random() < 0.6))
         root = rng.choice(sorted(p.inter & set(p.shape)) or p.names())
